@@ -70,7 +70,7 @@ def run(cmd, cwd=None, timeout=3600, env=None):
     p = subprocess.run(cmd, cwd=cwd, stdout=subprocess.PIPE, stderr=subprocess.STDOUT, timeout=timeout, env=env)
     return p.returncode, p.stdout.decode('utf-8', 'replace')
 
-def prepare(prop, obligations):
+def prepare(prop, obligations, tier='quick'):
     """Regenerate tables, build the property's Lean module and the driver, audit axioms.
     Returns dict(build_ok, audit: {name: axioms|None}, problems: [str])."""
     res = {'build_ok': True, 'audit': {}, 'problems': [], 'log': ''}
@@ -116,6 +116,19 @@ def prepare(prop, obligations):
             found[m.group(1)] = [a.strip() for a in m.group(2).replace('\n', ' ').split(',') if a.strip()]
         for m in re.finditer(r"'([^']+)' does not depend on any axioms", out):
             found[m.group(1)] = []
+        if tier == 'thorough' and res['build_ok']:
+            # second opinion: Lean's independent re-checker replays every declaration of the property module and of all
+            # project modules it imports in a fresh kernel (a time-out is recorded, not counted as a failure)
+            mods = [os.path.relpath(q, LEAN)[:-5].replace('/', '.') for q in import_closure(mod)]
+            t0 = time.time()
+            try:
+                rc, out = run(['lake', 'env', 'leanchecker'] + mods, cwd=LEAN, timeout=1800)
+                res['leanchecker'] = {'modules': len(mods), 'seconds': round(time.time() - t0, 1), 'exit': rc}
+                if rc != 0:
+                    res['build_ok'] = False
+                    res['problems'].append('leanchecker rejects the compiled modules:\n' + out[-2000:])
+            except subprocess.TimeoutExpired:
+                res['leanchecker'] = {'modules': len(mods), 'seconds': round(time.time() - t0, 1), 'exit': 'time-out'}
         for n in obligations:
             ax = found.get(n)
             res['audit'][n] = ax
@@ -199,6 +212,8 @@ def write_evidence(prop, tier, seed, ctx, prep, obligations, wall, nviol, extra=
         'known_findings_printed': ctx.known_hits,
         'notes': ctx.notes,
     }
+    if prep and prep.get('leanchecker'):
+        cov['leanchecker'] = prep['leanchecker']
     if extra:
         cov.update(extra)
     ev = {'property_id': prop, 'tier': tier, 'seed': seed, 'level': 'proof', 'coverage': cov,
@@ -225,7 +240,7 @@ def main_check(prop, tier, seed, replay=None):
         print('replay %s: %s' % (replay, 'property holds on this input' if ok else 'property FAILS on this input'))
         return 0 if ok else 1
     ctx = Ctx(prop, tier, seed)
-    prep = prepare(prop, obligations)
+    prep = prepare(prop, obligations, tier)
     for p in prep['problems']:
         log('[%s] proof/build problem: %s' % (prop, p[:1500]))
     known, fixed = load_known(prop)
